@@ -7,6 +7,9 @@ the one on disk; two spellings of the same code reach the rules as ONE shape:
       K == x -> x == K ; K != x -> x != K        (constant moved to the right)
   N2  if not C: A else: B   ->   if C: B else: A
   N3  t = E ; return t      ->   return E        (t not used anywhere else)
+  N4  t = E ; S[t]          ->   S[E]            (t written once, read once by the
+                                                  next statement, before any call of S
+                                                  completes and unconditionally)
 
 Pure operand = Name / Attribute chain / Constant / Subscript of those / unary
 minus of those: evaluating them has no side effect and their order does not
@@ -149,10 +152,194 @@ def _inline_return_temps(fn):
         scan(fn.body, ok)
 
 
+# ---------------------------------------------------------------------------
+# N4: a temporary that is written once and read once, by the very next
+# statement, before anything with a side effect completes, is the expression it
+# names:   t = E ; S[t]   ->   S[E]
+_EFFECT = (ast.Call, ast.Await, ast.Yield, ast.YieldFrom)
+
+
+def _eval_children(n):
+    """Child expressions in evaluation order."""
+    if isinstance(n, ast.Dict):
+        out = []
+        for k, v in zip(n.keys, n.values):
+            if k is not None:
+                out.append(k)
+            out.append(v)
+        return out
+    if isinstance(n, ast.Assign):
+        return [n.value] + list(n.targets)
+    if isinstance(n, ast.AugAssign):
+        return [n.target, n.value]
+    if isinstance(n, ast.AnnAssign):
+        return ([n.value] if n.value is not None else []) + [n.target]
+    return [c for c in ast.iter_child_nodes(n) if isinstance(c, (ast.expr, ast.keyword,
+                                                                ast.comprehension, ast.withitem,
+                                                                ast.arguments, ast.slice
+                                                                if hasattr(ast, "slice") else ast.expr))]
+
+
+def _safe_position(root, tnode):
+    """True if `tnode` is evaluated unconditionally and before any effectful
+    sub-expression of `root` completes."""
+    done = {"found": False, "ok": True}
+
+    def rec(n, conditional):
+        if done["found"]:
+            return
+        if n is tnode:
+            done["found"] = True
+            if conditional:
+                done["ok"] = False
+            return
+        if isinstance(n, (ast.Lambda, ast.ListComp, ast.SetComp, ast.DictComp, ast.GeneratorExp)):
+            # bodies are evaluated later / repeatedly
+            if any(x is tnode for x in ast.walk(n)):
+                done["found"] = True
+                done["ok"] = False
+            return
+        kids = _eval_children(n)
+        for i, c in enumerate(kids):
+            cond = conditional
+            if isinstance(n, ast.BoolOp) and i > 0:
+                cond = True
+            if isinstance(n, ast.IfExp) and c is not n.test:
+                cond = True
+            if isinstance(n, ast.Compare) and i > 1:
+                cond = True
+            rec(c, cond)
+            if done["found"]:
+                return
+        if isinstance(n, _EFFECT):
+            # this effect completed and tnode has not been evaluated yet
+            done["ok"] = False
+    rec(root, False)
+    return done["found"] and done["ok"]
+
+
+def _stmt_roots(st):
+    """The expression roots a statement evaluates immediately, in order
+    (None for statements we do not inline into)."""
+    if isinstance(st, (ast.Assign, ast.AugAssign, ast.AnnAssign)):
+        return [st]
+    if isinstance(st, (ast.Return, ast.Expr)):
+        return [st.value] if st.value is not None else []
+    if isinstance(st, ast.Raise):
+        return [x for x in (st.exc, st.cause) if x is not None]
+    if isinstance(st, ast.If):
+        return [st.test]
+    if isinstance(st, (ast.For, ast.AsyncFor)):
+        return [st.iter]
+    if isinstance(st, (ast.With, ast.AsyncWith)):
+        return [st.items[0].context_expr] if st.items else []
+    return None
+
+
+class _Subst(ast.NodeTransformer):
+    def __init__(self, tnode, value):
+        self.tnode, self.value = tnode, value
+
+    def visit_Name(self, n):
+        return self.value if n is self.tnode else n
+
+
+def _inline_temps(fn):
+    changed = True
+    rounds = 0
+    while changed and rounds < 20:
+        changed = False
+        rounds += 1
+        loads, stores, pinned = {}, {}, set()
+
+        def count(node, shadow):
+            for c in ast.iter_child_nodes(node):
+                if isinstance(c, (ast.FunctionDef, ast.AsyncFunctionDef, ast.Lambda)):
+                    inner = set(shadow)
+                    a = c.args
+                    inner |= {x.arg for x in a.posonlyargs + a.args + a.kwonlyargs}
+                    if not isinstance(c, ast.Lambda):
+                        for n in ast.walk(c):
+                            if isinstance(n, ast.Name) and isinstance(n.ctx, ast.Store):
+                                inner.add(n.id)
+                        nl = {x for n in ast.walk(c) if isinstance(n, ast.Nonlocal) for x in n.names}
+                        inner -= nl
+                        # a closure reading an outer local keeps it alive: pin
+                        for n in ast.walk(c):
+                            if isinstance(n, ast.Name) and n.id not in inner:
+                                pinned.add(n.id)
+                    count(c, inner)
+                    continue
+                if isinstance(c, ast.Name) and c.id not in shadow:
+                    if isinstance(c.ctx, ast.Load):
+                        loads[c.id] = loads.get(c.id, 0) + 1
+                    else:
+                        stores[c.id] = stores.get(c.id, 0) + 1
+                elif isinstance(c, (ast.Global, ast.Nonlocal)):
+                    pinned.update(c.names)
+                elif isinstance(c, ast.ExceptHandler) and c.name:
+                    stores[c.name] = stores.get(c.name, 0) + 1
+                elif isinstance(c, ast.arg):
+                    pinned.add(c.arg)
+                count(c, shadow)
+        count(fn, set())
+
+        def block(stmts):
+            nonlocal changed
+            i = 0
+            while i + 1 < len(stmts):
+                a, b = stmts[i], stmts[i + 1]
+                if isinstance(a, ast.Assign) and len(a.targets) == 1 \
+                        and isinstance(a.targets[0], ast.Name):
+                    t = a.targets[0].id
+                    if loads.get(t, 0) == 1 and stores.get(t, 0) == 1 and t not in pinned \
+                            and not any(isinstance(x, (ast.Yield, ast.YieldFrom, ast.Await,
+                                                       ast.NamedExpr, ast.Starred))
+                                        for x in ast.walk(a.value)):
+                        roots = _stmt_roots(b)
+                        if roots:
+                            uses = [x for r in roots for x in ast.walk(r)
+                                    if isinstance(x, ast.Name) and x.id == t
+                                    and isinstance(x.ctx, ast.Load)]
+                            if len(uses) == 1:
+                                # order of the roots: the use must come before any effect
+                                okpos = False
+                                for r in roots:
+                                    if any(x is uses[0] for x in ast.walk(r)):
+                                        okpos = _safe_position(r, uses[0])
+                                        break
+                                    if any(isinstance(x, _EFFECT) for x in ast.walk(r)):
+                                        break
+                                if okpos:
+                                    _Subst(uses[0], a.value).visit(b)
+                                    del stmts[i]
+                                    loads[t] = 0
+                                    changed = True
+                                    continue
+                i += 1
+            for st in stmts:
+                if isinstance(st, (ast.FunctionDef, ast.AsyncFunctionDef, ast.ClassDef)):
+                    continue
+                for f in ("body", "orelse", "finalbody"):
+                    sub = getattr(st, f, None)
+                    if isinstance(sub, list) and sub and isinstance(sub[0], ast.stmt):
+                        block(sub)
+                for h in getattr(st, "handlers", []) or []:
+                    block(h.body)
+                for c in getattr(st, "cases", []) or []:
+                    block(c.body)
+        block(fn.body)
+
+
 def normalise(tree):
     _Cmp().visit(tree)
     _If().visit(tree)
+    import os as _os
     for n in ast.walk(tree):
         if isinstance(n, (ast.FunctionDef, ast.AsyncFunctionDef)):
             _inline_return_temps(n)
+    if not _os.environ.get("VERIF_NO_N4"):
+        for n in ast.walk(tree):
+            if isinstance(n, (ast.FunctionDef, ast.AsyncFunctionDef)):
+                _inline_temps(n)
     return tree
